@@ -138,7 +138,7 @@ impl Prop for C18 {
             2 => gen::counter_src(tier.pick(600, 3000)),
         ];
         let s = (conf, src, prop_oneof![1 => Just(vec![]), 6 => vec(perturb(), 1..=3)]).prop_map(|(conf, src, perturbs)| Case { conf, src, perturbs });
-        vec![stage("sequences", s, tier.pick(3000, 100_000)).shrink(800)]
+        vec![stage("sequences", s, tier.pick(40_000, 400_000)).shrink(800)]
     }
 
     fn rule(&self) -> String {
@@ -153,7 +153,7 @@ impl Prop for C18 {
 
     fn health(&self, tier: Tier) -> Vec<(&'static str, u64)> {
         vec![
-            ("seq:unsorted", tier.pick(1500, 50_000)),
+            ("seq:unsorted", tier.pick(15_000, 150_000)),
             ("seq:after-cut", tier.pick(300, 10_000)),
             ("seq:unsorted-no-panic", tier.pick(20, 600)),
             ("seq:sorted", tier.pick(200, 6000)),
